@@ -243,6 +243,11 @@ fn c10_cases() -> Vec<(Box<dyn Subject>, generic::StreamCase)> {
         (subjects::make("cnf", "i32", false), case("cnf-distinct-variables", b"p cnf 99999999 0\n", b"######## -######## 0\n", b"", 24)),
         (subjects::make("wcnf", "i64", true), case("wcnf-distinct-weights", b"", b"######## ######## -1 0\n", b"", 24)),
         (subjects::make("gcnf", "i32", false), case("gcnf-distinct-groups", b"p gcnf 99999999 0 99999999\n", b"{########} ######## 0\n", b"", 24)),
+        // a header that announces exactly the (large) number of clauses that follow: more than 2^20
+        // empty clauses in the longer run
+        (subjects::make("cnf", "i32", false), case("cnf-announced-clause-count", b"p cnf 9 ########\n", b"0\n", b"", 12)),
+        (subjects::make("wcnf", "i32", false), case("wcnf-announced-clause-count", b"p wcnf 9 ######## 99\n", b"5 0\n", b"", 12)),
+        (subjects::make("gcnf", "i32", false), case("gcnf-announced-clause-count", b"p gcnf 9 ######## 3\n", b"{1} 0\n", b"", 12)),
         // large DECLARED counts with small items: memory must not follow the header's numbers
         (subjects::make("cnf", "i32", false), case("cnf-large-declared-variable-count", b"p cnf 20000000 0\n", b"1 -2 3 0\n-20000000 0\n", b"", 16)),
         (subjects::make("wcnf", "i64", false), case("wcnf-large-declared-counts", b"p wcnf 20000000 0 18446744073709551615\n", b"5 1 -2 0\n7 -20000000 0\n", b"", 16)),
